@@ -28,7 +28,12 @@ type File struct {
 	Ext    string `json:"ext"`
 	Imps   []int  `json:"imports,omitempty"`
 	ViaDir []bool `json:"via_dir,omitempty"`
+	// Odd: the file name holds characters that mean something in glob patterns (1: [x], 2: *, 3: ?): they are ordinary
+	// characters of a file name, an import entry names that file
+	Odd int `json:"odd_name,omitempty"`
 }
+
+var oddNames = []string{"f%d.%s", "f%d[x].%s", "f%d*.%s", "f%d?.%s"}
 
 // Case: an import structure rooted at file 0, optionally with one file missing or unparsable.
 type Case struct {
@@ -40,7 +45,7 @@ type Case struct {
 func (c Case) canon() string { b, _ := json.Marshal(c); return string(b) }
 
 func (c Case) path(i int) string {
-	return filepath.Join(c.Files[i].Dir, fmt.Sprintf("f%d.%s", i, c.Files[i].Ext))
+	return filepath.Join(c.Files[i].Dir, fmt.Sprintf(oddNames[c.Files[i].Odd%len(oddNames)], i, c.Files[i].Ext))
 }
 
 // importsOf returns the files an import entry of file i pulls in: the file itself, or every *.yaml
@@ -268,6 +273,9 @@ func genCase(rt *rapid.T) Case {
 		c.Files[i].Ext = "yaml"
 		if mixed {
 			c.Files[i].Ext = rapid.SampledFrom([]string{"yaml", "yaml", "json", "toml", "yml"}).Draw(rt, "ext")
+		}
+		if i > 0 && rapid.IntRange(0, 5).Draw(rt, "odd-file-name") == 0 {
+			c.Files[i].Odd = rapid.IntRange(1, 3).Draw(rt, "odd-kind")
 		}
 	}
 	c.Files[0].Dir = "."
